@@ -125,6 +125,15 @@ impl TestEnvironment {
             &work_directory, &tmp_directory,
         );
 
+        #[cfg(feature = "verif")]
+        scrut::verif::emit(
+            "env_new",
+            serde_json::json!({
+                "work": work_directory.as_path_buf(),
+                "tmp": tmp_directory.as_path_buf(),
+                "keep": keep_temporary_directories,
+            }),
+        );
         let namer = UniqueNamer::new(&work_directory.as_path_buf());
 
         Ok(TestEnvironment {
@@ -174,6 +183,14 @@ impl Debug for TestEnvironment {
 
 impl Drop for TestEnvironment {
     fn drop(&mut self) {
+        #[cfg(feature = "verif")]
+        scrut::verif::emit(
+            "env_drop",
+            serde_json::json!({
+                "work": self.work_directory.as_path_buf(),
+                "tmp": self.tmp_directory.as_path_buf(),
+            }),
+        );
         if let EnvironmentDirectory::Ephemeral(ref temp) = self.work_directory {
             debug!("cleaning up temporary work directory {:?}", temp.path());
         } else if let EnvironmentDirectory::Kept(ref temp) = self.work_directory {
